@@ -49,7 +49,7 @@ def _case(draw, tier):
              for n in names}
     older = {n: draw(st.sampled_from([False, False, True])) for n in names}
     pats = draw(st.one_of(st.just([]), gen.patterns(names), st.just(["*"])))
-    return {"desc": desc, "backend": draw(st.sampled_from(["slurm", "slurm", "sge", "lsf"])), "state": state,
+    return {"desc": desc, "invoke": draw(gen.invoke()), "backend": draw(st.sampled_from(["slurm", "slurm", "sge", "lsf"])), "state": state,
             "older": older, "patterns": pats, "force": draw(st.booleans()),
             "answer": draw(st.sampled_from(["y\n", "y\n", "n\n", "\n"])),
             "outputs_exist": draw(st.booleans()),
@@ -92,7 +92,7 @@ def run_case(case):
     desc, flavour = case["desc"], case["backend"]
     cmd = CANCEL_CMD[flavour]
     viols, labels = [], {"backend-" + flavour}
-    with project.Project(desc, backend=flavour) as proj:
+    with project.Project(desc, backend=flavour, invoke=case.get("invoke")) as proj:
         R = model.Resolved(desc)
         names = [t.name for t in R.targets]
         sim = proj.sim
